@@ -127,6 +127,12 @@ def check(ctx):
                "", " ", "// only a comment", "/* unterminated", "\"unterminated", "`unterminated", "let a = 1X;", "res / on get -> <>;\né",
                "let a = { € 'price num };", "let 😉 = num;"]
         tx += [texts.text_of_kinds(s) for s in texts.seqs_upto(texts.REDUCED[:10], 3)]
+        # every text of up to 3 (thorough: 4) characters over the characters on which the token patterns branch
+        import itertools
+        alpha = ["/", "*", "\"", "`", "'", "@", "a", "1", "X", ":", "-", ">", " ", "\n", "#", "\u00e9", "_", "."]
+        for k in range(1, (5 if ctx.thorough else 4)):
+            for combo in itertools.product(alpha, repeat=k):
+                tx.append("".join(combo))
     if not ctx.replay:
         ok, out = core.ensure_runner()
         if not ok:
@@ -140,6 +146,35 @@ def check(ctx):
             ctx.count("peg_tie_cases", len(small))
     lines = [json.dumps({"text": t}) for t in tx]
     outs = core.run_stateless(core.IMPL, "syntax", lines)
+    # the tokenizer tie (Model/Lexer.v): maximal munch = the code's tokens on texts without lexical errors;
+    # a text the model cannot tokenize has a lexical error in the code, and conversely
+    if not ctx.replay and not ctx.broken:
+        from . import pegtie
+        lt = [t for t in tx if len(t) < 2000]
+        louts = core.run_stateless(core.RUNNER, "lex", [" ".join(str(ord(c)) for c in t) for t in lt])
+        by_text = dict(zip(tx, outs))
+        for t, lo in zip(lt, louts):
+            o = by_text.get(t)
+            if lo is None or lo == "SKIPPED" or o in (None, "SKIPPED"):
+                continue
+            try:
+                r = json.loads(o)
+            except Exception:
+                continue
+            if r.get("status") != "ok":
+                continue
+            real = " ".join("%d:%d:%d" % (pegtie.TK[x[0]], x[1], x[2]) for x in r["tokens"])
+            if r["lex_errors"]:
+                if lo != "none":
+                    ctx.broken.append("tokenizer tie: the code reports a lexical error, the model tokenizes the text: %s" % json.dumps(t)[:300])
+                    ctx.count("lex_tie_disagree")
+                else:
+                    ctx.count("lex_tie_both_error")
+            elif lo != real:
+                ctx.broken.append("tokenizer tie: %s impl=[%s] model=[%s]" % (json.dumps(t)[:200], real[:200], lo[:200]))
+                ctx.count("lex_tie_disagree")
+            else:
+                ctx.count("lex_tie_agree")
     seen = set()
     for t, o in zip(tx, outs):
         ctx.cov["evaluations"] += 1
